@@ -130,9 +130,11 @@ def rule_traversal_completeness(ctx, rep, rid: str) -> None:
 
 def _class_table(ctx, f: Func, name: str) -> Optional[List[str]]:
     """Members of a module-level (or class-level) tuple of node classes."""
-    for n in f.module.tree.body:
-        if isinstance(n, ast.Assign) and any(isinstance(t, ast.Name) and t.id == name for t in n.targets) and isinstance(n.value, (ast.Tuple, ast.List)):
-            return [norm(e) for e in n.value.elts]
+    scopes = [f.module.tree.body] + ([f.cls.node.body] if getattr(f, "cls", None) is not None else [])
+    for body in scopes:
+        for n in body:
+            if isinstance(n, ast.Assign) and any(isinstance(t, ast.Name) and t.id == name for t in n.targets) and isinstance(n.value, (ast.Tuple, ast.List)):
+                return [norm(e) for e in n.value.elts]
     return None
 
 
@@ -157,10 +159,13 @@ def rule_filtered_walks_complete(ctx, rep, rid: str) -> None:
         # filters applied to the children in the generic branch
         tables = set()
         for c in f.own_nodes():
-            if isinstance(c, ast.Call) and norm(c.func) == "isinstance" and len(c.args) == 2 and isinstance(c.args[1], ast.Name) and isinstance(c.args[0], ast.Name) and c.args[0].id != var:
-                members = _class_table(ctx, f, c.args[1].id)
-                if members and all(m in schema for m in members):
-                    tables.add(c.args[1].id)
+            # the table filters the children the generic branch follows, or decides whether the node itself is walked
+            # (isinstance(node, self._COMPOUND)): either way the classes outside it are where the walk stops
+            if isinstance(c, ast.Call) and norm(c.func) == "isinstance" and len(c.args) == 2 and isinstance(c.args[0], ast.Name) and (isinstance(c.args[1], ast.Name) or (isinstance(c.args[1], ast.Attribute) and norm(c.args[1].value) in ("self", "cls"))):
+                tn = c.args[1].id if isinstance(c.args[1], ast.Name) else c.args[1].attr
+                members = _class_table(ctx, f, tn)
+                if members and all(m in schema for m in members) and len(members) >= 3:
+                    tables.add(tn)
         for tname in sorted(tables):
             members = set(_class_table(ctx, f, tname))
             explicit = set()
